@@ -29,6 +29,11 @@ if int(variant) >= 8:
           "argument kind / interpretation / semiring / dtype / shape class but is applied to another; a fast path guarded by a condition that is "
           "slightly too weak; an early return that skips a later normalisation step; an equality / identity / hash test used where the other "
           "notion was meant; iteration over a dict or set where order or multiplicity matters. Keep the diff under ~15 changed lines.\n")
+if int(variant) >= 9:
+    t += ("\nFor this variant start from USAGE: skim funsor's README.md, docs/source/*.rst and examples/*.py (those that run on the numpy backend) "
+          "for public usage patterns relevant to this property whose numerical result the test suite does not pin down, and seed the defect on "
+          "the code path such a pattern takes (helper functions, default arguments, convenience wrappers, operator sugar, __call__/__getitem__ "
+          "desugaring, to_funsor/to_data registrations for Python builtins, pretty-printing/quote round trips where the property covers them).\n")
 t += "\n\nSites ALREADY USED by earlier seeded changes (for any property) — choose a DIFFERENT function and mechanism:\n" + "\n".join(used) + "\n"
 open(f'/tmp/seedprompt_{pid}_{variant}.txt','w').write(t)
 print(f'/tmp/seedprompt_{pid}_{variant}.txt')
